@@ -4,7 +4,11 @@ Theorems (lean/TbbVerif/Props/C02.lean): Monitor (N sleepers x M notifiers, all 
 notify entry point incl. notify_one_relaxed(pred): which node its scan dequeues, at most one, none matching => none,
 no lost wake-up for K contexts with one waiter each = mutexes sharing an address_waiter bucket), BinSem (futex word),
 Tso (1x1 monitor instance with store buffers, parameterised by the observed Orders), Flag (arena's three-state flag),
-WaitCtx (Monitor + wait_context reference counter).
+WaitCtx (Monitor + wait_context reference counter); BQ (concurrent_bounded_queue's blocking push / pop: tickets, capacity,
+two Monitor instances with ticket-tagged waits and predicate_leq, abort), AE (arena::enqueue_task ->
+advertise_new_work<work_enqueued> / out_of_work / mandatory-concurrency demand bookkeeping: two Flag instances + the
+proxy counter + the market's critical section), EX (task_arena::execute waiting for a slot: per-slot try_occupy, delegated
+task, exit monitor = a Monitor instance, baton).
 
 Tie, on every run, against the current tree of /repo:
   * E-SHIM component harnesses on the REAL concurrent_monitor.h + semaphore.h (harness/c02/mon.cpp), the REAL
@@ -24,6 +28,19 @@ Tie, on every run, against the current tree of /repo:
     emptiness test of a notify); rt2.cpp: tbb::mutex / rw_mutex objects colliding in ONE address_waiter bucket (bucket
     found by calibration, not by replicating the hash) with one sleeping waiter each, and the two-arena family
     "enqueue into B vs spawn-only demand of C" under a zero-worker soft limit.
+  * bq.cpp: the REAL concurrent_bounded_queue + concurrent_bounded_queue.cpp under the shim: access-level replay on BQ
+    (random + bounded-preemption DFS + state-guided schedules through every point between the sleeper's predicate
+    re-check and commit_wait, against notify and against abort); the replayed model's `clean` flag decides which
+    implementation-side verdicts are inside the theorems' hypotheses (the excluded histories are the C09 findings);
+  * ae.cpp (whole runtime, white box): enqueue / out_of_work programs with the worker held back: access-level replay on
+    AE and comparison of the REAL quiescent demand state (flags, my_mandatory_requests, workers requested, min/max
+    workers, proxy counter, soft limit) with the model's and with arena_enqueue_mandatory; rt.cpp evaluates the same
+    predicate on the real state at every scheduling point of the enqueue scenarios (incl. enqueue racing the last
+    worker's out_of_work);
+  * ex.cpp (whole runtime, white box): task_arena(S,S).execute from N threads: access-level replay on EX, state-guided
+    schedules releasing a slot before / inside / after the waiter's re-check, implementation-side monitor
+    SLEEPS-WHILE-SLOT-FREE; the replayed model's `absorbed` flag separates the runs the theorems speak about from the
+    known finding execute-wakeup-absorbed-by-entering-waiter, which is demonstrated on every run.
 Failing-input search: bounded-preemption DFS / more schedules with the monitors; for a broken fence obligation the
 executable TSO explorer of the Lean model with the observed Orders (model-level schedule, said so in the replay).
 """
@@ -537,7 +554,7 @@ def flag_random_scenario(rng):
 
 FLAG_CORPUS = ["P 1\nC 1\nT", "P 2\nC 1\nT 1", "P 1 1\nC 1 1\nT 2", "P 2\nC 2\nT 2"]
 
-RT_SCENARIOS = ["tg2", "tg3", "enq2", "enq3", "enq1r", "enq0w", "enq2a", "bq", "bq2", "mtx2", "mtx3", "rw"]
+RT_SCENARIOS = ["tg2", "tg3", "enq2", "enq3", "enq1r", "enq0w", "enq2a", "enqrace1", "enqrace2", "bq", "bq2", "mtx2", "mtx3", "rw"]
 
 # rt2.cpp: mutexes colliding in one address_waiter bucket (types x arrival order x which waiter's mutex is unlocked first)
 RT2_COLL = ["coll.%s.%s.%s" % (ty, first, tg) for ty in ("mm", "rr", "mr", "rm") for first in "ab" for tg in ("older", "newer")] + \
@@ -725,6 +742,7 @@ def run_rt(ck, exe, scenarios=RT_SCENARIOS, nruns=None, seeds=1):
     total = parks = 0
     sites = {"fence": 0, "rmw": 0, "dirty": 0}
     dirty_detail = rmw_detail = ""
+    demand = {"quiescent_states_checked": 0, "with_a_task_in_the_stream": 0}
     for sc in scenarios:
         for sd in range(seeds):
             rc, out, err = sh([exe, sc, "rand", str(ck.seed * 7 + sd * 1009 + len(sc)), str(n)], timeout=1700)
@@ -734,6 +752,10 @@ def run_rt(ck, exe, scenarios=RT_SCENARIOS, nruns=None, seeds=1):
             p = len(re.findall(r" parks=[1-9]", out))
             parks += p
             ck.count(done, ("rt", sc, p > 0))
+            md = re.search(r"demand checks=(\d+) nonempty=(\d+)", out)
+            if md:
+                demand["quiescent_states_checked"] += int(md.group(1))
+                demand["with_a_task_in_the_stream"] += int(md.group(2))
             ms = re.search(r"sites fence=(\d+) rmw=(\d+) dirty=(\d+) ?(.*)", out)
             if ms:
                 sites["fence"] += int(ms.group(1))
@@ -749,7 +771,12 @@ def run_rt(ck, exe, scenarios=RT_SCENARIOS, nruns=None, seeds=1):
                 sched = next((l.split()[1:] for l in lines if l.startswith("sched")), [])
                 bad.append((sc, verdict, sched))
                 break
-    ck.extra.setdefault("schedules", {})["whole_runtime"] = {"runs": total, "runs_with_a_thread_parked_in_a_futex": parks, "notify_sites": sites}
+    ck.extra.setdefault("schedules", {})["whole_runtime"] = {"runs": total, "runs_with_a_thread_parked_in_a_futex": parks, "notify_sites": sites,
+                                                              "arena_demand_monitor": demand}
+    if any(sc.startswith("enq") for sc in scenarios):
+        ck.oblige("monitor:coverage — the arena-demand monitor (at every scheduling point where no thread is inside advertise_new_work / out_of_work / "
+                  "a request: tasks in the fifo stream => both flags SET and my_mandatory_requests >= 1, soft limit >= 1) saw states with tasks in the stream",
+                  "correspondence", demand["with_a_task_in_the_stream"] > 0 or bool(bad), str(demand))
     ck.oblige("monitor:whole instrumented runtime — task_group wait, enqueue with nobody waiting (incl. max_concurrency 1, zero workers, two arenas), "
               "bounded queue, tbb::mutex, tbb::rw_mutex never end with every thread parked", "correspondence", not bad,
               "" if not bad else "%s: %s" % (bad[0][0], bad[0][1]))
@@ -804,6 +831,862 @@ def run_rt2(ck, exe, scenarios=None, nruns=None, seeds=1):
     return bad
 
 
+# ----------------------------------------------------------------------------------------------------------------
+# concurrent_bounded_queue: blocking push / pop on two monitors (harness/c02/bq.cpp, Lean model BQ)
+# ----------------------------------------------------------------------------------------------------------------
+
+def build_bq():
+    return cxx_build("C02", "bq", ["harness/c02/bq.cpp", REPO + "/src/tbb/concurrent_bounded_queue.cpp", common.SHIM_SRC, STUBS],
+                     flags=["-O1", "-g", "-fno-access-control", "-D__TBB_BUILD", "-I" + REPO + "/src"] + common.SHIM_FLAGS)
+
+
+def bq_abstraction(evs):
+    """E-SHIM events of bq.cpp -> [(tid, canonical access)] at the granularity of the Lean `BQ` model: queue-level
+    accesses (head / tail / abortc) verbatim; the two monitors as in monitor_abstraction (variables tagged S. / I.);
+    the micro-queue level below a ticket collapses to `pub <valid>` (the pusher's tail_counter.fetch_add of its
+    micro-queue; invalid when preceded by ++n_invalid_entries: abort_push) and `con <valid>` (the popper's final
+    head_counter.store of its micro-queue; invalid when preceded by --n_invalid_entries)."""
+    evs = [e for e in evs if e[1] != "note"]
+    nxt, nextof = {}, [None] * len(evs)
+    for i in range(len(evs) - 1, -1, -1):
+        nextof[i] = nxt.get(evs[i][0])
+        nxt[evs[i][0]] = i
+    out, holder, dropped = [], {"S.": None, "I.": None}, 0
+    inval, cinval = {}, {}
+    for i, e in enumerate(evs):
+        t, k, var, o, a, b, ok = e
+        t = int(t)
+        if k == "fence":
+            out.append((t, "fence - %s" % o))
+            continue
+        if var in ("head", "tail", "abortc"):
+            if k == "load":
+                out.append((t, "load %s %s %s" % (var, o, a)))
+            elif k == "cas":
+                out.append((t, "cas %s %s %s %s %s" % (var, o, a, b, ok)))
+            else:
+                out.append((t, "%s %s %s %s %s" % (k, var, o, a, b)))
+            continue
+        if var == "ninv":
+            if k == "fadd":
+                inval[t] = True
+            elif k == "fsub":
+                cinval[t] = True
+            continue
+        if var.startswith("mqt"):
+            if k == "fadd":
+                out.append((t, "pub %d" % (0 if inval.pop(t, False) else 1)))
+            elif k != "load":
+                out.append((t, "%s %s %s %s %s" % (k, var, o, a, b)))
+            continue
+        if var.startswith("mqh"):
+            if k == "store":
+                out.append((t, "con %d" % (0 if cinval.pop(t, False) else 1)))
+            elif k != "load":
+                out.append((t, "%s %s %s %s %s" % (k, var, o, a, b)))
+            continue
+        if var.startswith("sem"):
+            if k == "store":
+                out.append((t, "store %s %s %s" % (var, o, a)))
+            elif k == "cas" and ok == "1":
+                out.append((t, "P " + var))
+            elif k == "xchg" and b == "0":
+                out.append((t, "V " + var))
+            elif k == "xchg" and a == "0":
+                out.append((t, "P " + var))
+            continue
+        if k in ("fwait", "fwake"):
+            continue
+        tag = var[:2] if var[:2] in ("S.", "I.") else None
+        if tag and var.endswith("mwait"):
+            continue
+        if tag and var.endswith("mflag"):
+            if k == "xchg" and a == "0" and b == "1":
+                out.append((t, "xchg %s %s 0 1" % (var, o)))
+                holder[tag] = t
+            elif k == "xchg" and b == "0":
+                out.append((t, "xchg %s %s %s 0" % (var, o, a)))
+                holder[tag] = None
+            continue
+        if k == "load":
+            j = nextof[i]
+            if (j is not None and evs[j][1] == "store" and evs[j][2] == var) or (tag and var.endswith("count") and holder[tag] == t):
+                dropped += 1
+                continue
+            out.append((t, "load %s %s %s" % (var, o, a)))
+        elif k == "store":
+            out.append((t, "store %s %s %s" % (var, o, a)))
+        else:
+            out.append((t, "%s %s %s %s %s" % (k, var, o, a, b)))
+    return out, dropped
+
+
+def replay_bq(scn, runs, stats):
+    """Replays every run of one scenario on the Lean BQ model (one driver call).  Returns [(run, diff-or-None, clean)]."""
+    L = scn.strip().split("\n")
+    cap = [l.split()[1] for l in L if l.startswith("cap")][0]
+    ths = [l for l in L if l.startswith("T")]
+    lines, spans = [], []
+    for r in runs:
+        ab, dropped = bq_abstraction(r["ev"])
+        stats["dropped_loads"] += dropped
+        spans.append((len(lines), ab))
+        lines += ["init %s" % cap] + ths + ["s %d" % t for t, _ in ab] + ["state", "left"]
+    if not lines:
+        return []
+    out = drv("c02bq", "\n".join(lines) + "\n")
+    res = []
+    for r, (start, ab) in zip(runs, spans):
+        n0 = start + 1 + len(ths)
+        stronger = [0]
+        diff = None
+        for i, (t, c) in enumerate(ab):
+            if not same_access(c, out[n0 + i], stronger):
+                diff = "access %d of thread %d: implementation '%s', model '%s'" % (i, t, c, out[n0 + i])
+                break
+        st = out[n0 + len(ab)].split(" | ")
+        clean = None
+        if diff is None:
+            stats["stronger_orders"] += stronger[0]
+            h, tl, ac, cl = st[0].split()
+            clean = cl == "1"
+            fin = r["fin"]
+            if fin and [h, tl, ac] != fin[:3]:
+                diff = "final counters: implementation head/tail/abortc %s, model %s" % (fin, st[0])
+            for i in range(len(ths)):
+                rr = st[1 + i].split() if 1 + i < len(st) else []
+                if diff is None and rr != r["res"].get(i, []):
+                    diff = "results of thread %d: implementation %s, model %s" % (i, r["res"].get(i), rr)
+            if diff is None and r["mon"] == "ok" and out[n0 + len(ab) + 1] != "0":
+                diff = "complete implementation run, but the model has %s unfinished threads" % out[n0 + len(ab) + 1]
+        res.append((r, diff, clean))
+    return res
+
+
+BQ_CORPUS = [
+    "cap 1\nT push push\nT pop pop",
+    "cap 1\nT pop pop\nT push push",
+    "cap 1\nT push push push\nT pop\nT pop pop",
+    "cap 2\nT push push push\nT pop pop pop",
+    "cap 1\nT push\nT push\nT pop pop",
+    "cap 2\nT push push tpush\nT pop tpop pop\nT push pop",
+    "cap 3\nT tpush tpush tpush tpush\nT tpop tpop\nT push pop",
+    "cap 1\nT pop\nT abort push",
+    "cap 1\nT pop\nT pop\nT abort",
+    "cap 1\nT push push\nT abort\nT pop",
+    "cap 1\nT pop pop\nT pop\nT abort abort\nT push push tpush",
+    "cap 1\nT push\nT push\nT push\nT abort\nT pop pop",
+]
+BQ_DFS = [0, 1, 7, 4]
+
+# state-guided schedules: (scenario, guide template, offsets): thread A runs until its node is enqueued (s1 / i1) or it
+# holds its ticket (h1 / t1 / a1), then k more scheduling points — k sweeps the window prepare_wait .. predicate loads ..
+# commit_wait (epoch check) .. P() — then the other thread runs to completion, then A
+BQ_GUIDED = [
+    ("push-sleeps|pop-notifies", "cap 1\nT push push\nT pop", "0:s1+%d,1:*,0:*", range(0, 12)),
+    ("pop-sleeps|push-notifies", "cap 1\nT pop\nT push", "0:i1+%d,1:*,0:*", range(0, 12)),
+    ("pop-notifies-first|push-sleeps", "cap 1\nT push push\nT pop", "0:t1+0,1:h1+%d,0:*,1:*", range(0, 10)),
+    ("push-notifies-first|pop-sleeps", "cap 1\nT pop\nT push", "1:t1+%d,0:*,1:*", range(0, 8)),
+    ("pop-sleeps|abort", "cap 1\nT pop\nT abort", "0:i1+%d,1:*,0:*", range(0, 12)),
+    ("abort-first|pop-sleeps", "cap 1\nT pop\nT abort", "0:h1+2,1:a1+%d,0:*,1:*", range(0, 10)),
+    ("push-sleeps|abort", "cap 1\nT push push\nT abort", "0:s1+%d,1:*,0:*", range(0, 12)),
+    ("two-poppers|one-push-leq", "cap 2\nT pop\nT pop\nT push push", "0:i1+3,1:i2+%d,2:*,0:*,1:*", range(0, 8)),
+]
+
+
+def bq_random_scenario(rng):
+    """2-4 threads; producers / consumers balanced in the number of blocking operations (try_* and abort sprinkled in):
+    whatever the schedule, a run ends complete or with every remaining thread legitimately blocked."""
+    cap = rng.choice([1, 1, 2, 3])
+    nth = rng.choice([2, 3, 3, 4])
+    progs = [[] for _ in range(nth)]
+    n = rng.choice([2, 3, 4])
+    for _ in range(n):
+        progs[rng.randrange(nth)].append("push")
+        progs[rng.randrange(nth)].append("pop")
+    for _ in range(rng.choice([0, 0, 1, 2])):
+        progs[rng.randrange(nth)].insert(rng.randrange(3), rng.choice(["tpush", "tpop"]))
+    if rng.randrange(4) == 0:
+        progs[rng.randrange(nth)].insert(rng.randrange(3), "abort")
+    progs = [p for p in progs if p] or [["push"], ["pop"]]
+    return "cap %d\n" % cap + "\n".join("T " + " ".join(p) for p in progs)
+
+
+def bq_verdict_is_violation(verdict, clean):
+    """`clean` = the replayed model state satisfies the hypothesis of bq_blocked_ops_complete (None: no replay).
+    BLOCKED = every parked thread's condition is false: not a violation of this property.  In an unclean history (C09
+    findings: abort racing a new pop, invalidated ticket) only the abort wake-up is claimed."""
+    v = verdict.split(" ")[0]
+    if v in ("ok", "BLOCKED"):
+        return False
+    if v in ("LOST-WAKEUP-ABORT", "DOUBLE-V", "UNLOCKED-WAITSET-WRITE"):
+        return True
+    return clean is not False
+
+
+def bq_classes(r):
+    """which paths of wait() the run took (coverage of the guided family)"""
+    cls = set()
+    last = {}
+    for e in r["ev"]:
+        if e[1] == "note":
+            continue
+        t, k, var = e[0], e[1], e[2]
+        prev = last.get(t)
+        if k == "fwait" and e[6] == "1":
+            cls.add("parked")
+        if k == "load" and var.startswith("inl") and prev:
+            if prev[1] == "load" and prev[2].endswith("epoch"):
+                cls.add("cancel-after-epoch-changed")
+            elif prev[1] == "load" and prev[2] in ("head", "tail"):
+                cls.add("cancel-predicate-true")
+            elif prev[1] == "load" and prev[2] == "abortc":
+                cls.add("cancel-predicate-threw")
+        if k == "cas" and var.startswith("sem") and e[6] == "1" and prev and prev[1] == "load" and prev[2].endswith("epoch"):
+            cls.add("V-before-P")
+        last[t] = e
+    return cls
+
+
+def run_bq(ck, exe):
+    quick = ck.tier == "quick"
+    stats = {"dropped_loads": 0, "stronger_orders": 0}
+    bad_corr, bad_mon = [], []
+    nruns = nunclean = nblocked = 0
+    nrand = 12 if quick else 40
+    scs = [(scn, nrand) for scn in BQ_CORPUS] + [(bq_random_scenario(ck.rng), nrand) for _ in range(30 if quick else 200)]
+
+    def handle(scn, runs, tag):
+        nonlocal nruns, nunclean, nblocked
+        for r, diff, clean in replay_bq(scn, runs, stats):
+            nruns += 1
+            ck.traces_validated += 1
+            verdict = r["mon"] or "?"
+            kinds = tuple(sorted(set((e[1], re.sub(r"\d+$", "", e[2])) for e in r["ev"] if e[1] != "note" and not e[2].startswith("mq"))))
+            ck.count(1, ("bq", tag, scn.count("\nT"), kinds, tuple(tuple(v) for v in r["res"].values()), verdict.split(" ")[0]))
+            if clean is False:
+                nunclean += 1
+            if verdict.startswith("BLOCKED"):
+                nblocked += 1
+            if diff:
+                bad_corr.append((scn, r, diff))
+            if bq_verdict_is_violation(verdict, clean if not diff else None):
+                bad_mon.append((scn, r))
+
+    for si, (scn, nr) in enumerate(scs):
+        rc, out, err = sh([exe, "rand", str(ck.seed * 1000 + si), str(nr)], input=scn + "\n", timeout=600)
+        runs = parse_runs(out)
+        if rc not in (0, 1) or len(runs) != nr:
+            bad_mon.append((scn, {"mon": "harness rc=%d runs=%d %s" % (rc, len(runs), (out + err)[-300:]), "sched": [], "ev": []}))
+            continue
+        handle(scn, runs, "rand")
+        if si < 2:
+            ck.sample({"harness": "bq", "scenario": scn, "trace_head": [" ".join(e) for e in runs[0]["ev"][:14]], "results": runs[0]["res"]})
+    # state-guided schedules through the windows of every ticket-tagged wait
+    guided_classes, nguided = {}, 0
+    for name, scn, tmpl, offs in BQ_GUIDED:
+        rs = []
+        for k in offs:
+            rc, out, err = sh([exe, "guided", tmpl % k, str(ck.seed)], input=scn + "\n", timeout=120)
+            r1 = parse_runs(out)
+            if rc not in (0, 1, 3) or len(r1) != 1:
+                bad_mon.append((scn, {"mon": "harness rc=%d %s" % (rc, (out + err)[-300:]), "sched": [], "ev": [], "guide": tmpl % k}))
+                continue
+            r1[0]["guide"] = tmpl % k
+            rs.append(r1[0])
+            guided_classes.setdefault(name, set()).update(bq_classes(r1[0]))
+        nguided += len(rs)
+        handle(scn, rs, "guided:" + name)
+    # bounded-preemption DFS of the two-thread scenarios
+    dfs_runs = 0
+    for ci in (BQ_DFS[:3] if quick else BQ_DFS):
+        scn = BQ_CORPUS[ci]
+        rc, out, err = sh([exe, "dfs", "2" if quick else "3", "6000" if quick else "80000"], input=scn + "\n", timeout=1700)
+        m = re.search(r"summary runs=(\d+) bad=(\d+)", out)
+        if m:
+            dfs_runs += int(m.group(1))
+        if rc != 0 or not m or m.group(2) != "0":
+            rs = parse_runs(out)
+            if rs:
+                rr = replay_bq(scn, rs[-1:], stats)
+                if rr and bq_verdict_is_violation(rs[-1]["mon"], rr[0][2] if not rr[0][1] else None):
+                    bad_mon.append((scn, rs[-1]))
+            else:
+                bad_mon.append((scn, {"mon": "harness rc=%d %s" % (rc, (out + err)[-300:]), "sched": [], "ev": []}))
+    ck.evaluations += dfs_runs
+    want = {"push-sleeps|pop-notifies": {"parked", "cancel-after-epoch-changed", "cancel-predicate-true"},
+            "pop-sleeps|push-notifies": {"parked", "cancel-after-epoch-changed", "cancel-predicate-true"},
+            "pop-sleeps|abort": {"parked", "cancel-predicate-threw"},
+            "push-sleeps|abort": {"parked", "cancel-predicate-threw"}}
+    missing = ["%s:%s" % (n, c) for n, cs in want.items() for c in sorted(cs - guided_classes.get(n, set()))]
+    ck.extra.setdefault("schedules", {})["bounded_queue"] = {
+        "random_runs": nruns - nguided, "guided_runs": nguided, "dfs_runs": dfs_runs, "runs_outside_the_clean_hypothesis": nunclean,
+        "runs_ending_legitimately_blocked": nblocked, "tolerated_loads_under_lock": stats["dropped_loads"],
+        "guided_paths_taken": {k: sorted(v) for k, v in guided_classes.items()}}
+    ck.oblige("monitor:coverage — the state-guided schedules drive every ticket-tagged wait (push on slots_avail, pop on items_avail, both "
+              "against notify and against abort) through: notifier finished before the predicate loads (cancel), between the predicate "
+              "and commit_wait (epoch changed), and after the thread parked (futex wait + V)", "correspondence",
+              not missing or bool(bad_mon), "paths never taken: %s" % missing)
+    ck.oblige("corr:concurrent_bounded_queue blocking push/pop/try_*/abort access trace (tickets, both monitors, predicate loads, abort paths, "
+              "results, final counters) replays on the Lean BQ model", "correspondence", not bad_corr,
+              "" if not bad_corr else "%s | scenario %s | %s" % (bad_corr[0][2], bad_corr[0][0].replace("\n", " / "),
+                                                                 ("guide " + bad_corr[0][1]["guide"]) if bad_corr[0][1].get("guide") else "sched " + " ".join(bad_corr[0][1]["sched"])[:500]))
+    ck.oblige("monitor:concurrent_bounded_queue — no thread sleeps in push/pop while its slot is within capacity / its item's ticket is taken "
+              "(clean histories), none after abort() changed the counter (all histories); no double V, wait sets written under their mutex "
+              "(random + state-guided + bounded-preemption DFS)", "correspondence", not bad_mon,
+              "" if not bad_mon else "%s | scenario %s" % (bad_mon[0][1]["mon"], bad_mon[0][0].replace("\n", " / ")))
+    for scn, r in bad_mon[:1]:
+        verdict = r["mon"] or "?"
+        key = "bq:%s:%s" % (verdict.split(" ")[0], " / ".join(l for l in scn.split("\n")))
+        ck.counterexample(key, "bounded queue: %s | scenario %s | schedule of %d steps" % (verdict, scn.replace("\n", " / "), len(r["sched"])),
+                          {"engine": "E-SHIM", "harness": "bq", "scenario": scn, "schedule": r["sched"], "guide": r.get("guide"), "monitor": verdict,
+                           "trace": [" ".join(e) for e in r.get("ev", [])][:300]})
+    if not bad_mon:
+        for scn, r, diff in bad_corr[:1]:
+            ck.counterexample("bq:model-divergence:%s" % " / ".join(scn.split("\n")),
+                              "bounded queue: the implementation's access trace leaves the Lean BQ model: %s | scenario %s" % (diff, scn.replace("\n", " / ")),
+                              {"engine": "E-SHIM", "harness": "bq", "scenario": scn, "schedule": r["sched"], "guide": r.get("guide"),
+                               "monitor": "MODEL-DIVERGENCE " + diff, "trace": [" ".join(e) for e in r.get("ev", [])][:300]})
+    return bad_corr, bad_mon
+
+
+# ----------------------------------------------------------------------------------------------------------------
+# arena::enqueue_task demand bookkeeping (harness/c02/ae.cpp, Lean model AE)
+# ----------------------------------------------------------------------------------------------------------------
+
+def build_ae():
+    objs = common.shim_runtime_objects()
+    return cxx_build("C02", "ae", ["harness/c02/ae.cpp", common.SHIM_SRC],
+                     flags=["-O1", "-g", "-fno-access-control", "-D__TBB_BUILD", "-I" + REPO + "/src"] + common.SHIM_FLAGS,
+                     libs=objs + ["-ldl"])
+
+
+def s32(x):
+    v = int(x) & 0xffffffff
+    return v - (1 << 32) if v & 0x80000000 else v
+
+
+def ae_abstraction(evs):
+    """phase-1 events of ae.cpp -> [(tid, canonical access)] at the granularity of the Lean `AE` model.  The `busy` value
+    of a clear transaction (address of a local) is renamed 2 + tid of the clearing thread."""
+    busy, out = {}, []
+    st = {}          # per thread: op kind, pushed?, fenced?, locked market?, fadd seen?
+    for e in evs:
+        t, k, var = int(e[0]), e[1], e[2]
+        if k == "note":
+            if var == "op_begin":
+                st[t] = {"op": e[3], "fenced": False, "pushed": False, "locked": False, "fadd": False}
+                out.append((t, "begin"))
+            elif var == "op_end":
+                st.pop(t, None)
+            continue
+        if t not in st:
+            continue
+        q = st[t]
+        o, a, b, ok = e[3], e[4], e[5], e[6]
+        if k == "fence":
+            if q["op"] == "0" and q["pushed"] and not q["fenced"]:
+                q["fenced"] = True
+                out.append((t, "fence"))
+            continue
+        if var == "fifo":
+            if k in ("for", "fadd", "xchg", "store") and q["op"] == "0":
+                q["pushed"] = True
+                out.append((t, "push fifo"))
+            elif k == "load" and q["op"] == "1":
+                out.append((t, "pred %s %d" % (q.get("inflag", "?"), 0 if a == "0" else 1)))
+            continue
+        if var in ("mand", "pool"):
+            def cv(x):
+                return busy.get(x, x)
+            if k == "load":
+                out.append((t, "load %s %s - 1" % (var, cv(a))))
+            elif k == "cas":
+                if a == "1" and ok == "1" and b not in ("0", "1"):
+                    busy[b] = str(2 + t)
+                if ok == "1" and cv(b) == str(2 + t):
+                    q["inflag"] = var
+                out.append((t, "cas %s %s %s %s" % (var, cv(a), cv(b), ok)))
+            else:
+                out.append((t, "%s %s %s %s" % (k, var, a, b)))
+            continue
+        if var == "nummand":
+            if k == "fadd":
+                q["fadd"] = True
+                out.append((t, "fadd nummand %d %d" % (s32(a), s32(b))))
+            elif k == "load" and q["fadd"]:
+                out.append((t, "wlock proxy"))
+            elif k != "load":
+                out.append((t, "%s nummand %s %s" % (k, a, b)))
+            continue
+        if var == "mkt":
+            if k != "load" and ok == "1" and not q["locked"] and int(b) != 0 and int(a) != int(b):
+                q["locked"] = True
+                out.append((t, "lock market"))
+            continue
+        if var == "wtm":
+            if k == "load" and q["locked"] and not q.get("notified"):
+                q["notified"] = True
+                out.append((t, "notify"))
+            continue
+    return out
+
+
+def replay_ae(scn, runs):
+    L = scn.strip().split("\n")
+    P = int([l.split()[1] for l in L if l.startswith("P")][0])
+    conc, res = [int(x) for x in [l.split()[1:] for l in L if l.startswith("A")][0]]
+    ths = [l for l in L if l.startswith("T")]
+    lines, spans = [], []
+    for r in runs:
+        ab = ae_abstraction(r["ev"])
+        spans.append((len(lines), ab))
+        lines += ["init %d %d" % (conc - res, P - 1)] + ths + ["s %d" % t for t, _ in ab] + ["state", "left"]
+    if not lines:
+        return []
+    out = drv("c02ae", "\n".join(lines) + "\n")
+    res_ = []
+    for r, (start, ab) in zip(runs, spans):
+        n0 = start + 1 + len(ths)
+        diff = None
+        for i, (t, c) in enumerate(ab):
+            m = out[n0 + i]
+            if c == "begin":
+                if not m.startswith("begin"):
+                    diff = "access %d of thread %d: implementation starts an operation, model '%s'" % (i, t, m)
+                    break
+            elif c != m:
+                diff = "access %d of thread %d: implementation '%s', model '%s'" % (i, t, c, m)
+                break
+        if diff is None:
+            st = out[n0 + len(ab)].split()
+            # model: fm.flag fm.work fp.flag fp.work mandReq totalReq minW maxW numMand enabled soft wakeups
+            mdl = [st[0], st[2], "0" if st[1] == "0" else "1", st[4], st[5], st[6], st[7], st[8], st[9], st[10]]
+            if r["fin"] and mdl != r["fin"]:
+                diff = ("quiescent state after phase 1 (mandatory flag, pool flag, stream non-empty, my_mandatory_requests, "
+                        "my_total_num_workers_requested, min_workers, max_workers, num_mandatory, enabled, soft limit): implementation %s, model %s"
+                        % (" ".join(r["fin"]), " ".join(mdl)))
+            elif out[n0 + len(ab) + 1] != "0":
+                diff = "phase 1 complete on the implementation, but the model has %s unfinished threads" % out[n0 + len(ab) + 1]
+        res_.append((r, diff))
+    return res_
+
+
+AE_CORPUS = [
+    "P 1\nA 2 1\nT enq\nT oow",
+    "P 1\nA 2 1\nT enq enq\nT oow oow",
+    "P 1\nA 1 1\nT enq\nT oow",                   # worker-less arena: workers_delta = 1
+    "P 2\nA 2 1\nT enq\nT oow\nT enq",
+    "P 1\nA 3 1\nT oow enq\nT enq oow\nT oow",
+    "P 1\nA 2 1\nT enq\nT enq\nT oow oow",
+    "P 4\nA 4 1\nT enq oow\nT oow enq",
+]
+
+
+def ae_random_scenario(rng):
+    P = rng.choice([1, 1, 2, 4])
+    conc, res = rng.choice([(2, 1), (2, 1), (1, 1), (3, 1), (4, 2), (2, 0)])
+    nth = rng.choice([2, 3, 3])
+    progs = [[rng.choice(["enq", "oow"]) for _ in range(rng.choice([1, 2, 2]))] for _ in range(nth)]
+    if not any("enq" in p for p in progs):
+        progs[0][0] = "enq"
+    return "P %d\nA %d %d\n" % (P, conc, res) + "\n".join("T " + " ".join(p) for p in progs)
+
+
+def ae_property(fin):
+    """arena_enqueue_mandatory read on the REAL quiescent state after phase 1 (nobody inside any operation)"""
+    fm, fp, ne, mr, tr, mn, mx, nm, en, soft = [int(x) for x in fin]
+    if not ne:
+        return None
+    bad = []
+    if fm != 1:
+        bad.append("my_mandatory_concurrency not SET")
+    if fp != 1:
+        bad.append("my_pool_state not SET")
+    if mr < 1:
+        bad.append("my_mandatory_requests=%d" % mr)
+    if tr < 1:
+        bad.append("my_total_num_workers_requested=%d" % tr)
+    if mn != 1 or mx < 1:
+        bad.append("min/max workers %d/%d" % (mn, mx))
+    if nm < 1:
+        bad.append("my_num_mandatory_requests=%d" % nm)
+    if soft < 1:
+        bad.append("soft limit %d (mandatory concurrency enabled=%d)" % (soft, en))
+    return "; ".join(bad) or None
+
+
+def run_ae(ck, exe):
+    quick = ck.tier == "quick"
+    nr = 8 if quick else 40
+    scs = AE_CORPUS + [ae_random_scenario(ck.rng) for _ in range(14 if quick else 120)]
+    bad_corr, bad_mon = [], []
+    nruns = nnonempty = 0
+    for si, scn in enumerate(scs):
+        rc, out, err = sh([exe, "rand", str(ck.seed * 1000 + si), str(nr)], input=scn + "\n", timeout=900)
+        runs = parse_runs(out)
+        if rc not in (0, 1) or len(runs) != nr:
+            bad_mon.append((scn, {"mon": "harness rc=%d runs=%d %s" % (rc, len(runs), (out + err)[-300:]), "sched": []}))
+            continue
+        for r, diff in replay_ae(scn, runs):
+            nruns += 1
+            ck.traces_validated += 1
+            ck.count(1, ("ae", scn.split("\n")[0], scn.split("\n")[1], scn.count("\nT"), tuple(r["fin"])))
+            if diff:
+                bad_corr.append((scn, r, diff))
+            if r["mon"] != "ok":
+                bad_mon.append((scn, r))
+                continue
+            if r["fin"] and r["fin"][2] == "1":
+                nnonempty += 1
+            v = ae_property(r["fin"]) if r["fin"] else None
+            if v:
+                r2 = dict(r)
+                r2["mon"] = "DEMAND-LOST after phase 1 (every operation returned, tasks in the stream): " + v
+                bad_mon.append((scn, r2))
+        if si < 1 and runs:
+            ck.sample({"harness": "ae", "scenario": scn, "trace": [" ".join(e) for e in runs[0]["ev"][:30]], "fin": runs[0]["fin"]})
+    ck.extra.setdefault("schedules", {})["arena_enqueue"] = {"phase1_runs": nruns, "runs_ending_with_tasks_in_the_stream": nnonempty}
+    ck.oblige("corr:arena::enqueue_task / out_of_work access trace (stream population, both flags incl. busy transactions, proxy counter, "
+              "enable check, market critical section, notification) and the quiescent demand state replay on the Lean AE model",
+              "correspondence", not bad_corr,
+              "" if not bad_corr else "%s | scenario %s | sched %s" % (bad_corr[0][2], bad_corr[0][0].replace("\n", " / "), " ".join(bad_corr[0][1]["sched"])[:400]))
+    ck.oblige("monitor:arena enqueue — after any interleaving of enqueues and out_of_work calls, with tasks left in the fifo stream: both flags "
+              "SET, my_mandatory_requests >= 1, workers requested >= 1, min_workers = 1, soft limit >= 1; and the enqueued tasks do run afterwards",
+              "correspondence", not bad_mon, "" if not bad_mon else "%s | scenario %s" % (bad_mon[0][1]["mon"], bad_mon[0][0].replace("\n", " / ")))
+    for scn, r in bad_mon[:1]:
+        verdict = r["mon"]
+        ck.counterexample("ae:%s:%s" % (verdict.split(" ")[0], " / ".join(scn.split("\n"))),
+                          "arena enqueue demand: %s | scenario %s | schedule of %d steps" % (verdict, scn.replace("\n", " / "), len(r["sched"])),
+                          {"engine": "E-SHIM", "harness": "ae", "scenario": scn, "schedule": r["sched"], "monitor": verdict,
+                           "trace": [" ".join(e) for e in r.get("ev", [])][:200]})
+    if not bad_mon:
+        for scn, r, diff in bad_corr[:1]:
+            ck.counterexample("ae:model-divergence:%s" % " / ".join(scn.split("\n")),
+                              "arena enqueue: the implementation's access trace / quiescent state leaves the Lean AE model: %s | scenario %s" % (diff, scn.replace("\n", " / ")),
+                              {"engine": "E-SHIM", "harness": "ae", "scenario": scn, "schedule": r["sched"], "monitor": "MODEL-DIVERGENCE " + diff,
+                               "trace": [" ".join(e) for e in r.get("ev", [])][:200]})
+    return bad_corr, bad_mon
+
+
+# ----------------------------------------------------------------------------------------------------------------
+# task_arena::execute waiting for a slot (harness/c02/ex.cpp, Lean model EX)
+# ----------------------------------------------------------------------------------------------------------------
+
+EX_FINDING = "execute-wakeup-absorbed-by-entering-waiter"
+
+
+def build_ex():
+    objs = common.shim_runtime_objects()
+    return cxx_build("C02", "ex", ["harness/c02/ex.cpp", common.SHIM_SRC],
+                     flags=["-O1", "-g", "-fno-access-control", "-D__TBB_BUILD", "-I" + REPO + "/src"] + common.SHIM_FLAGS,
+                     libs=objs + ["-ldl"])
+
+
+def ex_abstraction(evs, N):
+    """implementation trace -> [(driver command, expected model event)]"""
+    out = []
+    st = {t: {"phase": "idle", "got": False, "waited": False, "inner_done": False, "pend0": None} for t in range(N)}
+    fin = {}            # physical thread -> [caller w, stage]   stage: pre / locked / post
+    holder = None
+    dropped = 0
+    # next event index of the same thread (named events only)
+    nxt, nextof = {}, [None] * len(evs)
+    for i in range(len(evs) - 1, -1, -1):
+        if evs[i][1] == "note":
+            continue
+        if evs[i][2] == "mwait":
+            continue
+        nextof[i] = nxt.get(evs[i][0])
+        nxt[evs[i][0]] = i
+    for i, e in enumerate(evs):
+        t, k, var = int(e[0]), e[1], e[2]
+        o, a, b, ok = (e[3:7] + ["", "", "", ""])[:4]
+        if k == "note":
+            if var == "call_begin":
+                st[t] = {"phase": "scan1", "got": False, "waited": False, "inner_done": False, "pend0": None}
+            elif var == "call_end":
+                if st[t]["waited"]:
+                    out.append(("s %d" % t, "ret"))
+                st[t]["phase"] = "idle"
+            continue
+        if k in ("fwait", "fwake") or var == "mwait":
+            continue
+        # ---- whose role?
+        tid = t
+        if t in fin:
+            w, stage = fin[t]
+            if stage == "post" and not (var.startswith("sem") and k == "xchg" and b == "0"):
+                del fin[t]
+            else:
+                tid = N + w
+        S = st.get(t)
+        if k == "fence":
+            j = nextof[i]
+            keep = j is not None and ((evs[j][1] == "load" and evs[j][2] == "count") or (evs[j][1] == "load" and evs[j][2] == "wo%d" % t))
+            if keep:
+                out.append(("s %d" % tid, "fence - %s" % o))
+            else:
+                dropped += 1
+            continue
+        if var == "fifo":
+            if k == "for" and S and S["phase"] == "scan1":
+                out.append(("s %d" % t, "enq"))
+                S["phase"] = "wait"
+                S["waited"] = True
+            continue
+        if var.startswith("slot"):
+            kk = int(var[4:])
+            if k == "load":
+                if a != "0":
+                    out.append(("s %d %d" % (t, kk), "tas %s 1" % var))
+                else:
+                    dropped += 1
+            elif k == "xchg":
+                out.append(("s %d %d" % (t, kk), "tas %s %s" % (var, a)))
+                if a == "0" and S and S["phase"] == "wait":
+                    S["got"] = True
+            elif k == "store":
+                out.append(("s %d" % t, "store %s %s %s" % (var, o, a)))
+                if S:
+                    S["got"] = False
+            continue
+        if var.startswith("wo"):
+            w = int(var[2:])
+            if k == "fadd":
+                out.append(("s %d" % (N + w), "fadd %s %s %s %s" % (var, o, a, b)))
+                fin[t] = [w, "pre"]
+            elif k == "load":
+                if S and S["got"] and w == t:
+                    if a == "0" and not S["inner_done"]:
+                        out.append(("s %d" % t, "load %s %s 0" % (var, o)))
+                        S["inner_done"] = True
+                    else:
+                        dropped += 1
+                else:
+                    out.append(("s %d" % t, "load %s %s %s" % (var, o, a)))
+            continue
+        if var.startswith("sem"):
+            if k == "store":
+                out.append(("s %d" % tid, "store %s %s %s" % (var, o, a)))
+            elif k == "cas" and ok == "1":
+                out.append(("s %d" % tid, "P " + var))
+            elif k == "xchg" and b == "0":
+                out.append(("s %d" % tid, "V " + var))
+            elif k == "xchg" and a == "0":
+                out.append(("s %d" % tid, "P " + var))
+            continue
+        if var == "mflag":
+            if k == "xchg" and a == "0" and b == "1":
+                out.append(("s %d" % tid, "xchg mflag %s 0 1" % o))
+                holder = t
+                if t in fin:
+                    fin[t][1] = "locked"
+            elif k == "xchg" and b == "0":
+                out.append(("s %d" % tid, "xchg mflag %s %s 0" % (o, a)))
+                holder = None
+                if t in fin:
+                    fin[t][1] = "post"
+            continue
+        if k == "load":
+            j = nextof[i]
+            if (j is not None and evs[j][1] == "store" and evs[j][2] == var) or (var == "count" and holder == t):
+                dropped += 1
+                continue
+            out.append(("s %d" % tid, "load %s %s %s" % (var, o, a)))
+            if var == "count" and holder != t and a == "0" and t in fin:
+                del fin[t]
+        elif k == "store":
+            out.append(("s %d" % tid, "store %s %s %s" % (var, o, a)))
+        else:
+            out.append(("s %d" % tid, "%s %s %s %s %s" % (k, var, o, a, b)))
+    return out, dropped
+
+
+def replay_ex(scn, runs):
+    ths = [l.split()[1] for l in scn.strip().split("\n") if l.startswith("T")]
+    N = len(ths)
+    lines, spans = [], []
+    for r in runs:
+        S = r["fin"][0] if r["fin"] else "2"
+        ab, dropped = ex_abstraction(r["ev"], N)
+        spans.append((len(lines), ab))
+        lines += ["init %s %s" % (S, " ".join(ths))] + [c for c, _ in ab] + ["state", "left"]
+    if not lines:
+        return []
+    out = drv("c02ex", "\n".join(lines) + "\n")
+    res = []
+    for r, (start, ab) in zip(runs, spans):
+        n0 = start + 1
+        stronger = [0]
+        diff = None
+        for i, (c, exp) in enumerate(ab):
+            if not same_access(exp, out[n0 + i], stronger):
+                diff = "access %d (%s): implementation '%s', model '%s'" % (i, c, exp, out[n0 + i])
+                break
+        absorbed = None
+        if diff is None:
+            st = out[n0 + len(ab)].split(" | ")
+            absorbed = st[1].split()[2] == "1"
+            if r["mon"] == "ok" and out[n0 + len(ab) + 1] != "0":
+                diff = "complete implementation run, but the model has %s unfinished threads (%s)" % (out[n0 + len(ab) + 1], out[n0 + len(ab)])
+        res.append((r, diff, absorbed))
+    return res
+
+
+def ex_classes(r, w):
+    """which way thread w left a round of the wait loop (coverage of the guided family)"""
+    cls = set()
+    ws = str(w)
+    enq, ep = False, None
+    for e in r["ev"]:
+        if e[0] != ws or e[1] == "note":
+            continue
+        k, var = e[1], e[2]
+        if k == "store" and var == "inl%s" % ws and e[4] == "1":
+            enq, ep = False, None                      # a new prepare_wait
+        if k == "load" and var == "epoch":
+            if not enq:
+                ep = e[4]
+            elif ep is not None and e[4] != ep:
+                cls.add("commit-failed-epoch-changed")
+        if k == "store" and var == "count" and ep is not None:
+            enq = True
+        if enq and k == "xchg" and var.startswith("slot") and e[4] == "0":
+            cls.add("took-slot-in-loop")
+            enq = False
+        if k == "fwait" and e[6] == "1":
+            cls.add("parked")
+            enq = False
+        if k == "cas" and var.startswith("sem") and e[6] == "1" and enq:
+            cls.add("V-before-P")
+            enq = False
+        if k == "load" and var.startswith("inl"):
+            enq = False
+    return cls
+
+
+EX_CORPUS = ["A 2\nT 1\nT 1\nT 1", "A 2\nT 1\nT 1\nT 1\nT 1", "A 2\nT 2\nT 1\nT 2", "A 3\nT 1\nT 1\nT 1\nT 1\nT 1",
+             "A 2\nT 2\nT 2\nT 2\nT 1"]
+# state-guided schedules: threads 0 and 1 occupy the two slots; the waiter (thread 2) runs until its node is enqueued in the
+# exit monitor and k more scheduling points (the fence, wo.continue_execution(), the two try_occupy, commit_wait's epoch
+# load, the semaphore); then thread 1 leaves (release + notify_one): the release falls before / inside / after the
+# waiter's re-check, before commit_wait, after it parked
+EX_GUIDED = ("A 2\nT 1\nT 1\nT 1", "0:B,1:B,2:w1+%d,1:*,2:*", range(0, 14), 2)
+# the demonstration of the known finding: X (thread 2) occupies slot 1 inside its wait loop and is still enqueued when W
+# (thread 3) parks behind it; thread 0's notify_one dequeues X
+EX_ABSORB = ("A 2\nT 1\nT 1\nT 1\nT 1", "0:B,1:B,2:q,1:*,2:o1,3:*,0:e1+40,2:B")
+
+
+def ex_random_scenario(rng):
+    n = rng.choice([3, 4, 4, 5])
+    return "A %d\n" % rng.choice([2, 2, 3]) + "\n".join("T %d" % rng.choice([1, 1, 2]) for _ in range(n))
+
+
+def run_ex(ck, exe):
+    quick = ck.tier == "quick"
+    nr = 10 if quick else 40
+    scs = EX_CORPUS + [ex_random_scenario(ck.rng) for _ in range(10 if quick else 100)]
+    bad_corr, bad_mon, known = [], [], []
+    nruns = nabs = 0
+
+    def handle(scn, runs, tag):
+        nonlocal nruns, nabs
+        for r, diff, absorbed in replay_ex(scn, runs):
+            nruns += 1
+            ck.traces_validated += 1
+            verdict = r["mon"] or "?"
+            ck.count(1, ("ex", tag, scn, verdict.split(" ")[0], absorbed, tuple(sorted(ex_classes(r, scn.count("\nT") - 1)))))
+            if absorbed:
+                nabs += 1
+            if diff:
+                bad_corr.append((scn, r, diff))
+            if verdict != "ok":
+                if verdict.startswith("SLEEPS-WHILE-SLOT-FREE") and absorbed and not diff:
+                    known.append((scn, r))          # outside the theorems' reach: the known finding
+                else:
+                    bad_mon.append((scn, r))
+
+    for si, scn in enumerate(scs):
+        rc, out, err = sh([exe, "rand", str(ck.seed * 1000 + si), str(nr)], input=scn + "\n", timeout=900)
+        runs = parse_runs(out)
+        if rc not in (0, 1) or len(runs) != nr:
+            bad_mon.append((scn, {"mon": "harness rc=%d runs=%d %s" % (rc, len(runs), (out + err)[-300:]), "sched": [], "ev": []}))
+            continue
+        handle(scn, runs, "rand")
+        if si < 1 and runs:
+            ck.sample({"harness": "ex", "scenario": scn, "trace_head": [" ".join(e) for e in runs[0]["ev"][:24]]})
+    # the window between the re-check and commit_wait
+    gscn, tmpl, offs, w = EX_GUIDED
+    classes = set()
+    nguided = 0
+    for k in offs:
+        rc, out, err = sh([exe, "guided", tmpl % k, str(ck.seed)], input=gscn + "\n", timeout=300)
+        r1 = parse_runs(out)
+        if rc not in (0, 1) or len(r1) != 1:
+            bad_mon.append((gscn, {"mon": "harness rc=%d %s" % (rc, (out + err)[-300:]), "sched": [], "ev": [], "guide": tmpl % k}))
+            continue
+        r1[0]["guide"] = tmpl % k
+        classes |= ex_classes(r1[0], w)
+        nguided += 1
+        handle(gscn, r1, "guided")
+    want = {"took-slot-in-loop", "commit-failed-epoch-changed", "parked"}
+    # the known finding, demonstrated under a fixed state-guided schedule
+    ascn, aguide = EX_ABSORB
+    demo = None
+    for sd in range(1, 9):
+        rc, out, err = sh([exe, "guided", aguide, str(sd)], input=ascn + "\n", timeout=300)
+        r1 = parse_runs(out)
+        if rc not in (0, 1) or len(r1) != 1:
+            bad_mon.append((ascn, {"mon": "harness rc=%d %s" % (rc, (out + err)[-300:]), "sched": [], "ev": [], "guide": aguide}))
+            continue
+        r1[0]["guide"], r1[0]["guide_seed"] = aguide, sd
+        nb = len(known)
+        handle(ascn, r1, "absorb")
+        if len(known) > nb and demo is None:
+            demo = known[-1]
+    ck.extra.setdefault("schedules", {})["task_arena_execute"] = {
+        "random_runs": nruns - nguided, "guided_runs": nguided, "runs_with_an_absorbed_wake_up": nabs,
+        "guided_paths_taken": sorted(classes), "sleeps_while_slot_free_in_absorbed_runs": len(known)}
+    ck.oblige("monitor:coverage — the state-guided schedules release a slot before, inside and after the waiter's re-check "
+              "(occupy_free_slot between prepare_wait and commit_wait): the waiter takes the slot in the loop, fails commit_wait "
+              "on the changed epoch, parks and is woken", "correspondence", want <= classes or bool(bad_mon),
+              "paths never taken: %s" % sorted(want - classes))
+    ck.oblige("corr:task_arena::execute access trace (try_occupy per slot, enqueue of the delegated task, prepare/commit/cancel_wait on the exit "
+              "monitor, wait_context loads, finalize: release + notify(ctx), slot release + notify_one, baton, node destructor) replays on the "
+              "Lean EX model", "correspondence", not bad_corr,
+              "" if not bad_corr else "%s | scenario %s | %s" % (bad_corr[0][2], bad_corr[0][0].replace("\n", " / "),
+                                                                 ("guide " + bad_corr[0][1]["guide"]) if bad_corr[0][1].get("guide") else "sched " + " ".join(bad_corr[0][1]["sched"])[:400]))
+    ck.oblige("monitor:task_arena::execute — no run ends with every thread parked, no double V, wait set written under its mutex; and in runs "
+              "in which no notify_one dequeued a waiter that had already occupied a slot: no thread sleeps in the exit monitor while a slot is "
+              "free and nobody is on the way to notify_one", "correspondence", not bad_mon,
+              "" if not bad_mon else "%s | scenario %s" % (bad_mon[0][1]["mon"], bad_mon[0][0].replace("\n", " / ")))
+    ck.oblige("monitor:task_arena::execute — a thread waiting for a slot is woken once a slot is free (every history)", "correspondence",
+              not known, "" if not known else "%s | scenario %s" % (known[0][1]["mon"], known[0][0].replace("\n", " / ")),
+              cex_keys=[EX_FINDING] if known else None)
+    if known:
+        scn, r = demo or known[0]
+        ck.counterexample(EX_FINDING, "task_arena::execute: %s | scenario %s | %s" % (
+                              r["mon"], scn.replace("\n", " / "), ("guide " + r["guide"]) if r.get("guide") else "schedule of %d steps" % len(r["sched"])),
+                          {"engine": "E-SHIM", "harness": "ex", "scenario": scn, "schedule": r["sched"], "guide": r.get("guide"),
+                           "guide_seed": r.get("guide_seed"), "monitor": r["mon"]})
+    for scn, r in bad_mon[:1]:
+        verdict = r["mon"] or "?"
+        ck.counterexample("ex:%s:%s" % (verdict.split(" ")[0], " / ".join(scn.split("\n"))),
+                          "task_arena::execute: %s | scenario %s" % (verdict, scn.replace("\n", " / ")),
+                          {"engine": "E-SHIM", "harness": "ex", "scenario": scn, "schedule": r["sched"], "guide": r.get("guide"),
+                           "guide_seed": r.get("guide_seed"), "monitor": verdict, "trace": [" ".join(e) for e in r.get("ev", [])][:300]})
+    if not bad_mon:
+        for scn, r, diff in bad_corr[:1]:
+            ck.counterexample("ex:model-divergence:%s" % " / ".join(scn.split("\n")),
+                              "task_arena::execute: the implementation's access trace leaves the Lean EX model: %s | scenario %s" % (diff, scn.replace("\n", " / ")),
+                              {"engine": "E-SHIM", "harness": "ex", "scenario": scn, "schedule": r["sched"], "guide": r.get("guide"),
+                               "guide_seed": r.get("guide_seed"), "monitor": "MODEL-DIVERGENCE " + diff,
+                               "trace": [" ".join(e) for e in r.get("ev", [])][:300]})
+    return bad_corr, bad_mon
+
+
+
 def tso_explore(flags):
     out = drv("c02tso", "explore " + " ".join("1" if f else "0" for f in flags) + "\n")
     return out[0] if out else "none"
@@ -850,6 +1733,10 @@ def run(ck):
                "seeded random schedules with access-by-access replay on the Lean models, plus bounded-preemption DFS of the small scenarios; "
                "whole instrumented runtime scenarios under seeded random schedules (incl. 22 bucket-collision shapes: mutex/rw_mutex types x arrival "
                "order x which waiter's mutex is unlocked first, and 36 two-arena shapes: creation order x priorities x owner waits/busy); "
+               "concurrent_bounded_queue (12 hand-written + seeded random programs of push/pop/try_*/abort, capacities 1-3; random + DFS + 84 "
+               "state-guided schedules), arena enqueue bookkeeping (enqueue / out_of_work programs x soft limit x arena shape, phase-1 "
+               "schedules), task_arena::execute (2-3 slots x 3-5 threads x 1-2 calls; random + 14 state-guided window offsets + the "
+               "fixed demonstration schedule of the known finding); "
                "distinct = (harness, #threads, access kinds seen, results) classes")
     ck.assumptions += [
         "proved on the models (all schedules): Monitor N x M at atomic-access granularity under sequential consistency; BinSem 1 owner x K "
@@ -857,9 +1744,19 @@ def run(ck):
         "buffers at lock-region granularity (stores of a region enter the buffer individually, lock acquisitions and semaphore operations drain)",
         "the monitor's own mutex (concurrent_monitor_mutex: exchange / futex) is an abstract lock in the model; its sleep path is exercised only by "
         "the implementation-side deadlock monitor",
-        "concurrent_bounded_queue push/pop, tbb::mutex, tbb::rw_mutex, task_arena::execute slot waits, suspended tasks, thread_request_serializer / "
-        "mandatory-concurrency bookkeeping (C16) and worker acquisition from the OS: covered by the monitor theorem only in so far as they use "
-        "concurrent_monitor::wait/notify with a matching predicate; otherwise by the sampled end-to-end deadlock monitor, not by theorems",
+        "tbb::mutex, tbb::rw_mutex, suspended tasks and worker acquisition from the OS: covered by the monitor theorem only in so far as they "
+        "use concurrent_monitor::wait/notify with a matching predicate; otherwise by the sampled end-to-end deadlock monitor, not by theorems",
+        "concurrent_bounded_queue (BQ): the micro-queue level below a ticket (pages, spin hand-over) is C09's: a ticket is published / consumed "
+        "by one step; bq_blocked_ops_complete assumes `clean` (no head_counter-- after a later pop ticket was handed out, no invalidated "
+        "ticket: exactly the C09 findings; throwing constructors are not in the alphabet); bq_abort_wakes_all has no hypothesis; capacity 0 and "
+        "deadlock-freedom of whole programs are not claimed (safety form: parked + condition true => V owed or the notifier pending)",
+        "arena enqueue (AE): one arena with my_num_slots > my_num_reserved_slots (an arena whose slots are all reserved never requests a "
+        "worker for an enqueued task: observation, not claimed); the market's allotment, the serializer's pending-delta aggregation and "
+        "set_active_num_workers racing the enable check are abstracted to one critical section; spawn-only demand is outside the model",
+        "task_arena::execute (EX): S slots all usable by external threads, no workers in the arena (a delegated task is executed by an "
+        "environment step); proved: the completed-delegated-task wake-up and that no release is missed between the re-check and commit_wait; "
+        "NOT proved: the hand-over chain after a waiter has parked (notify_one baton) — it is false for S >= 2 in the code "
+        "(KNOWN_FINDINGS execute-wakeup-absorbed-by-entering-waiter) and unproved for S = 1",
         "notify_one_relaxed(pred) (tbb::mutex::unlock -> notify_by_address_one): a no-lost-wake-up THEOREM only under uniqB (the thread waiting on "
         "the announced condition with the matching context is the only thread that ever waits with that context: one blocked thread per mutex, "
         "any number of mutexes per bucket: mutex_bucket_collision_no_lost_wakeup); several threads blocked on the SAME mutex (each wake-up hands "
@@ -874,7 +1771,8 @@ def run(ck):
         "weak CAS never fails spuriously and futex waits never wake spuriously under the shim (a delayed futex wake-up acts as a spurious one and is "
         "modelled); the kernel futex, RML thread start/park and timing are not modelled",
     ]
-    ck.trusted += ["harness/shim (atomic shim + baton scheduler + futex emulation)", "harness/c02/*.cpp (ghost monitors, notify-site rule)",
+    ck.trusted += ["harness/shim (atomic shim + baton scheduler + futex emulation)", "harness/c02/*.cpp (ghost monitors, notify-site rule, "
+                   "state-guided schedules, naming of stack words by stack window)",
                    "trace abstraction + replay in checks/c02.py (sampled correspondence)", "g++ / x86-TSO mapping of C++ memory orders",
                    "rt2.cpp bucket calibration (two addresses share an address_waiter bucket iff notify_by_address_one tests the same counter)"]
     mon = build_comp("mon")
@@ -893,6 +1791,12 @@ def run(ck):
     bad_rt, site_dirty, dirty_detail, site_rmw = run_rt(ck, rt)
     rt2 = build_rt2()
     bad_rt2 = run_rt2(ck, rt2)
+    bq = build_bq()
+    bad_corr_q, bad_mon_q = run_bq(ck, bq)
+    ae = build_ae()
+    bad_corr_a, bad_mon_a = run_ae(ck, ae)
+    ex = build_ex()
+    bad_corr_x, bad_mon_x = run_ex(ck, ex)
     # ---- failing-input search ---------------------------------------------------------------------------------
     if ck.broken() and not ck.counterexamples:
         log("obligations broke without a counterexample: searching")
@@ -934,6 +1838,23 @@ def run(ck):
                         cex_monitor(ck, "flag", scn, rs[-1])
                         break
         if not ck.counterexamples:
+            stats = {"dropped_loads": 0, "stronger_orders": 0}
+            for scn in (BQ_CORPUS[:6] if ck.tier == "quick" else BQ_CORPUS):
+                rc, out, err = sh([bq, "dfs", "3", "20000" if ck.tier == "quick" else "200000"], input=scn + "\n", timeout=1700)
+                m = re.search(r"summary runs=(\d+) bad=(\d+)", out)
+                if rc != 0 or not m or m.group(2) != "0":
+                    rs = parse_runs(out)
+                    rr = replay_bq(scn, rs[-1:], stats) if rs else []
+                    if rr and (rr[0][1] or bq_verdict_is_violation(rs[-1]["mon"], rr[0][2] if not rr[0][1] else None)):
+                        ck.counterexample("bq:%s:%s" % (rs[-1]["mon"].split(" ")[0], " / ".join(scn.split("\n"))),
+                                          "bounded queue: %s | scenario %s" % (rs[-1]["mon"], scn.replace("\n", " / ")),
+                                          {"engine": "E-SHIM", "harness": "bq", "scenario": scn, "schedule": rs[-1]["sched"], "monitor": rs[-1]["mon"]})
+                        break
+        if not ck.counterexamples:
+            sub = common.Check("C02", ck.tier, ck.seed + 41)
+            run_ae(sub, ae)
+            ck.counterexamples += sub.counterexamples
+        if not ck.counterexamples:
             sub = common.Check("C02", ck.tier, ck.seed + 17)
             b2, _, _, _ = run_rt(sub, rt, nruns=60 if ck.tier == "quick" else 600, seeds=2)
             ck.counterexamples += sub.counterexamples
@@ -974,6 +1895,48 @@ def replay(ck, obj):
         rc, out, err = sh([exe, r["scenario"], "replay", ",".join(r["schedule"])], timeout=600)
         print("\n".join(l for l in out.split("\n") if not l.startswith("sched"))[-2000:])
         return 0 if rc == 0 else 1
+    if h == "bq":
+        exe = build_bq()
+        if r.get("guide"):
+            rc, out, err = sh([exe, "guided", r["guide"], str(ck.seed)], input=r["scenario"] + "\n", timeout=300)
+        else:
+            rc, out, err = sh([exe, "replay", ",".join(r["schedule"])], input=r["scenario"] + "\n", timeout=300)
+        runs = parse_runs(out)
+        bad = 0
+        for rr, diff, clean in replay_bq(r["scenario"], runs, {"dropped_loads": 0, "stronger_orders": 0}):
+            print("implementation monitors: %s | history within the theorem's hypotheses (clean): %s | Lean BQ model replay: %s" %
+                  (rr["mon"], clean, diff or "agrees"))
+            if diff or bq_verdict_is_violation(rr["mon"] or "?", clean if not diff else None):
+                bad = 1
+        print("\n".join(l for l in out.split("\n") if not l.startswith("sched"))[-2500:])
+        return bad if runs else 1
+    if h == "ex":
+        exe = build_ex()
+        if r.get("guide"):
+            rc, out, err = sh([exe, "guided", r["guide"], str(r.get("guide_seed") or ck.seed)], input=r["scenario"] + "\n", timeout=300)
+        else:
+            rc, out, err = sh([exe, "replay", ",".join(r["schedule"]), "1"], input=r["scenario"] + "\n", timeout=300)
+        runs = parse_runs(out)
+        bad = 0
+        for rr, diff, absorbed in replay_ex(r["scenario"], runs):
+            print("implementation monitors: %s | a notify_one dequeued a waiter that already held a slot: %s | Lean EX model replay: %s" %
+                  (rr["mon"], absorbed, diff or "agrees"))
+            if diff or rr["mon"] != "ok":
+                bad = 1
+        print("\n".join(l for l in out.split("\n") if not l.startswith("sched"))[-2500:])
+        return bad if runs else 1
+    if h == "ae":
+        exe = build_ae()
+        rc, out, err = sh([exe, "replay", ",".join(r["schedule"]), "1"], input=r["scenario"] + "\n", timeout=600)
+        runs = parse_runs(out)
+        bad = 0
+        for rr, diff in replay_ae(r["scenario"], runs):
+            v = ae_property(rr["fin"]) if rr["fin"] else "no quiescent state reached"
+            print("implementation: %s | quiescent state %s: %s | Lean AE model replay: %s" % (rr["mon"], " ".join(rr["fin"] or []), v or "demand registered", diff or "agrees"))
+            if diff or v or rr["mon"] != "ok":
+                bad = 1
+        print("\n".join(l for l in out.split("\n") if not l.startswith("sched"))[-2500:])
+        return bad if runs else 1
     exe = build_comp(h)
     if h == "wctx":
         rc, out, err = sh([exe, "replay", ",".join(r["schedule"]), "1"] + list(r["args"]), timeout=300)
